@@ -40,7 +40,7 @@ def preload():
     cirqstub.self_check()
 
 
-def h_vqe_rdm(env, opts, patt, sum_spin, canary=False, trace_mode="ne", definition=False):
+def h_vqe_rdm(env, opts, patt, sum_spin, canary=False, trace_mode="ne", definition=False, call_ref=None):
     """trace_mode: 'ne' - the state conserves N (JW, closed shell): traces are N and N(N-1);  'state' - the traces equal <N> and
     <N(N-1)> of the prepared state (word-by-word Trotterised open-shell UCCSD under BK leaves the N sector: the property only
     demands integer traces 'whenever the state conserves it');  'skip' - scBK of such a state: N is not defined on the reduced
@@ -81,11 +81,16 @@ def h_vqe_rdm(env, opts, patt, sum_spin, canary=False, trace_mode="ne", definiti
         th = vec(env, "th", patt)
         with sym_alloc(env):
             e = s.energy_estimation(th)
-            r1, r2 = s.get_rdm_uhf(th) if getattr(molecule, "uhf", False) else s.get_rdm(th, sum_spin=sum_spin)
+            if call_ref is not None:
+                # documented per-call argument get_rdm(..., ref_state=circuit): the RDMs are those of circuit + ansatz, whatever
+                # reference the solver itself was built with
+                r1, r2 = s.get_rdm(th, sum_spin=sum_spin, ref_state=call_ref)
+            else:
+                r1, r2 = s.get_rdm_uhf(th) if getattr(molecule, "uhf", False) else s.get_rdm(th, sum_spin=sum_spin)
             if trace_mode == "state" or definition:
                 nq_ = s.ansatz.circuit.width
-                amps = c08.decode_amplitudes(c08.full_circuit_state(s, nq_), molecule.n_active_sos, opts.get("qubit_mapping", "jw"),
-                                             opts.get("up_then_down", False))
+                st_ = c08.full_circuit_state(s, nq_, extra_ref=call_ref) if call_ref is not None else c08.full_circuit_state(s, nq_)
+                amps = c08.decode_amplitudes(st_, molecule.n_active_sos, opts.get("qubit_mapping", "jw"), opts.get("up_then_down", False))
     finally:
         c02._restore()
     n_e = molecule.n_active_electrons
@@ -100,7 +105,7 @@ def h_vqe_rdm(env, opts, patt, sum_spin, canary=False, trace_mode="ne", definiti
                 tr = tr + blk[i, i]
         env.check_eq(tr, sum(n_e) if isinstance(n_e, (list, tuple)) else n_e, "UHF: traces of the two 1-RDM blocks add up to the number of active electrons")
         return
-    if sum_spin:
+    if sum_spin and call_ref is None:
         with sym_alloc(env):
             e2 = molecule.energy_from_rdms(r1, r2)
         if canary:
@@ -406,6 +411,11 @@ def shapes(tier, seed):
             o_["ref_state"] = rs_
         out.append(Shape(f"vqe_rdm/definition/sym2/{nm_}", h_vqe_rdm, dict(opts=o_, patt="ss", sum_spin=ss_, trace_mode="state", definition=True),
                          modules=MODS, max_paths=32))
+    other_ref = _C([_G("X", 0), _G("X", 3)], n_qubits=4)
+    for ss_ in (True, False):
+        out.append(Shape(f"vqe_rdm/definition/sym2/jw/ref_state-argument/sumspin={int(ss_)}", h_vqe_rdm,
+                         dict(opts=dict(molecule_key="SYM2", qubit_mapping="jw", up_then_down=False, ansatz=BuiltInAnsatze.UCCSD, ref_state=cref),
+                              patt="ss", sum_spin=ss_, trace_mode="state", definition=True, call_ref=other_ref), modules=MODS, max_paths=32))
     out.append(Shape("canary/vqe_rdm", h_vqe_rdm, dict(opts=dict(molecule_key="SYM2", qubit_mapping="jw", up_then_down=False, ansatz=BuiltInAnsatze.UCCSD),
                                                         patt="ss", sum_spin=True, canary=True), modules=MODS, max_paths=32, canary=True))
     from harness.c04 import AUX_MOLS
